@@ -4,19 +4,4 @@ go 1.21.1
 
 require github.com/safing/portbase v0.0.0
 
-require (
-	github.com/fxamacker/cbor/v2 v2.5.0 // indirect
-	github.com/ghodss/yaml v1.0.0 // indirect
-	github.com/gofrs/uuid v4.4.0+incompatible // indirect
-	github.com/tevino/abool v1.2.0 // indirect
-	github.com/tidwall/gjson v1.17.0 // indirect
-	github.com/tidwall/match v1.1.1 // indirect
-	github.com/tidwall/pretty v1.2.1 // indirect
-	github.com/tidwall/sjson v1.2.5 // indirect
-	github.com/vmihailenco/msgpack/v5 v5.4.1 // indirect
-	github.com/vmihailenco/tagparser/v2 v2.0.0 // indirect
-	github.com/x448/float16 v0.8.4 // indirect
-	gopkg.in/yaml.v2 v2.4.0 // indirect
-)
-
 replace github.com/safing/portbase => /repo
